@@ -3,6 +3,7 @@
 package c02
 
 import (
+	"strings"
 	"bytes"
 	"encoding/json"
 	"fmt"
@@ -47,6 +48,10 @@ type Transcript struct {
 	// messages it exports its crypto state and carries on as a stream rebuilt from the blob on the same
 	// connection (the documented process hand-off). The rebuilt stream is still the protected stream: the
 	// same prefix rule holds, replays of frames delivered before the hand-off included.
+	// Buffered: the sender uses StartMessage / WriteMessage(chunk)... / EndMessage; "frames" are then the chunk
+	// sizes handed to WriteMessage (the stream cuts the frames itself) and may include chunks above the 4 KiB
+	// flush threshold.
+	Buffered bool `json:"buffered,omitempty"`
 	Handoff int `json:"handoff,omitempty"`
 	Acks    int `json:"acks,omitempty"`
 }
@@ -126,7 +131,19 @@ func build(tr Transcript) (*built, error) {
 	for i, m := range tr.Msgs {
 		var whole []byte
 		n0 := len(sc.WriteLog)
-		if tr.Typed {
+		if tr.Buffered {
+			S.StartMessage()
+			for j, n := range m.Frames {
+				pl := kit.Pattern(n, tr.Salt+uint32(i*16+j))
+				whole = append(whole, pl...)
+				if err := S.WriteMessage(kit.Bg, pl); err != nil {
+					return nil, err
+				}
+			}
+			if err := S.EndMessage(kit.Bg); err != nil {
+				return nil, err
+			}
+		} else if tr.Typed {
 			msg := message.NewMessageForStream(S)
 			for j, n := range m.Frames {
 				pl := kit.Pattern(n, tr.Salt+uint32(i*16+j))
@@ -484,6 +501,16 @@ func genTranscript(t *rapid.T) Transcript {
 		}
 		tr.Msgs = append(tr.Msgs, m)
 	}
+	if !tr.Typed && rapid.IntRange(0, 3).Draw(t, "buffered") == 0 {
+		tr.Buffered = true
+		for i := range tr.Msgs {
+			for j := range tr.Msgs[i].Frames {
+				if rapid.IntRange(0, 3).Draw(t, "bigchunk") == 0 {
+					tr.Msgs[i].Frames[j] = rapid.SampledFrom([]int{4095, 4096, 4097, 5000, 9000}).Draw(t, "chunk")
+				}
+			}
+		}
+	}
 	if rapid.IntRange(0, 2).Draw(t, "handoff?") == 0 {
 		tr.Handoff, tr.Acks = rapid.IntRange(1, n-1).Draw(t, "handoff"), rapid.IntRange(1, 3).Draw(t, "acks")
 	}
@@ -532,6 +559,10 @@ func TestC02Multi(t *testing.T) {
 	rapid.Check(t, func(t *rapid.T) {
 		tr := genTranscript(t)
 		b, err := build(tr)
+		if err != nil && strings.Contains(err.Error(), "reference opener") {
+			js, _ := json.Marshal(tr)
+			t.Fatalf("C02 violated: with nobody on the path, what the sender put on the wire is not what its application sent: %v\ncase: %s", err, js)
+		}
 		if err != nil {
 			t.Fatalf("C02 harness: cannot build transcript: %v", err)
 		}
@@ -572,6 +603,9 @@ func TestC02Exhaustive(t *testing.T) {
 		if ti%5 == 1 || ti%5 == 4 {
 			tr.Handoff, tr.Acks = 1+int(x>>11)%(nm-1), 1+int(x>>13)%3
 		}
+		if ti%5 == 3 && !tr.Typed {
+			tr.Buffered = true
+		}
 		sizes := []int{0, 1, 15, 16, 17, 40, 100}
 		for i := 0; i < nm; i++ {
 			var m TMsg
@@ -587,6 +621,9 @@ func TestC02Exhaustive(t *testing.T) {
 				m.Frames = append(m.Frames, l)
 			}
 			tr.Msgs = append(tr.Msgs, m)
+		}
+		if tr.Buffered {
+			tr.Msgs[1].Frames = []int{7, 5000, 3} // a small chunk still buffered when a chunk above the flush threshold arrives
 		}
 		b, err := build(tr)
 		if err != nil {
